@@ -343,7 +343,7 @@ def random_history(rng, mode, unsafe_ok=False):
     if mode == "auto":
         L = 40            # provisional; the program is re-run with the final length
     else:
-        L = rng.choice([1, 2, 3, 4, 5, 6, 8, 8, 12, 16, 16, 24, 31, 32, 32, 32])
+        L = rng.choice([1, 2, 3, 4, 5, 6, 8, 8, 12, 16, 16, 24, 31, 32, 32, 32, 48, 52, 56, 64, 64])
     s = Session(L)
     need = {}             # index in s.accepted -> bits of the largest value given (generation bookkeeping)
     target = rng.randint(1, 9)
@@ -372,7 +372,7 @@ def random_history(rng, mode, unsafe_ok=False):
         name = fresh[0] if (fresh and (not used or rng.random() < 0.72)) else rng.choice(used)
         ln = None if rng.random() < 0.5 else rng.randint(1, max(1, min(8, L)))
         if ln is not None and rng.random() < 0.06:
-            ln = rng.randint(1, min(L, 32))
+            ln = rng.randint(1, min(L, 64))
         st = None
         if mode == "mixed" and rng.random() < 0.42:
             w = ln or 1
@@ -417,8 +417,12 @@ def random_history(rng, mode, unsafe_ok=False):
                 r2 = rng.random()
                 v = (1 << ln) - 1 if r2 < 0.45 else (rng.randrange(1 << ln) if r2 < 0.9 else (1 << ln))
             else:
-                k = rng.randint(1, 6 if mode == "auto" else min(32, L))
+                k = rng.randint(1, 6 if mode == "auto" else min(64, L))
+                if mode == "auto" and rng.random() < 0.06:
+                    k = rng.randint(40, 62)          # wide automatic fields: lengths come from a floating-point log
                 v = rng.getrandbits(k) | (1 << (k - 1))
+                if rng.random() < 0.25:
+                    v = (1 << (k - 1)) + rng.choice((0, 0, 1))      # exactly a power of two, or one more
             newvals[a[0]] = v
         m = s.call(scope, newvals)
         if m is not None:
@@ -440,7 +444,7 @@ def random_history(rng, mode, unsafe_ok=False):
     if mode == "auto":
         load = load_estimate(s.accepted, need)
         slack = rng.choice([0, 0, 0, 1, 1, 2, 3, -1])
-        L2 = max(1, min(32, load + slack))
+        L2 = max(1, min(64, load + slack))
         prog = dict(len=L2, ops=s.ops, max_handles=s.max_handles)
         s = execute(prog)
     s.assign()
@@ -616,13 +620,13 @@ def run(chk):
                 "random histories of add_field (length None or 1..32, position None / flush with the top / adjacent "
                 "to another explicit field / random / overflowing, tags as string or list), calls with values "
                 "(0/1, small, full width, one too large, up to 32 bits), several assign_fields, depth <= 4+, sibling "
-                "scopes re-using names, independent scopes crossing, lengths 1..32; 'auto' histories have no "
+                "scopes re-using names, independent scopes crossing, lengths 1..64; 'auto' histories have no "
                 "explicit position and a length chosen to fit exactly, with 1-3 bits to spare, or one short. "
                 "Positions are never compared with expected positions.  non-trivial = at least two accepted fields "
                 "and an assign_fields; distinct = distinct programs")
     chk.assumptions = [
         "explicit positions are >= 0 (a negative start_at is outside the property's domain)",
-        "bit field lengths and field lengths are 1..32",
+        "bit field lengths and field lengths are 1..64",
         "the success guarantee is judged for the first assign_fields of a history only (later ones inherit "
         "positions from the earlier layout)",
         "a field's condition is the set of values held by the bit field through which it was defined "
